@@ -21,6 +21,8 @@ Clauses(ev) ==
       [] ev.e = "partassign" -> PartAssignViol(ev.s, ev.L, ev.t) \cup Tag(PartitionViol(ev.t, ev.boneLimit), "parts")
       [] ev.e = "setget" -> SetGetViol(ev.s, ev.attr, ev.given, ev.t)
       \* inexact values: the getter is within half a storage step (dev1000: largest deviation in 1/1000 of 1/255)
+      \* a shape beyond 65535 triangles: the expected list is computed by the harness (naive filter + renumbering)
+      [] ev.e = "bigdelete" -> V(ev.gotNt = ev.expectNt /\ ev.sameTris /\ ev.reloadNt = ev.expectNt /\ ev.nt > 65535, "TrianglesWithoutDeletedVerticesInOrder")
       [] ev.e = "approx" -> V(ev.count /\ ev.dev1000 <= 1010, "GetterReturnsWhatWasSetWithinStoragePrecision")
       [] ev.e = "reloadsame" -> SameAfterReloadViol(ev.t, ev.r)
       [] ev.e = "reloadfirst" -> FirstReloadViol(ev.t, ev.r, ev.written)
